@@ -99,6 +99,7 @@ func c14Run(c *c14Case) (err error) {
 	}
 	var models []*fileModel
 	var readers []*hintFileReader
+	splitNo := map[int]int{}
 	files, chunks := c.Files, c.Chunks
 	if c.Big != nil {
 		files = append(append([][]c14Item{}, c.Files...), c.Big.expand())
@@ -120,7 +121,9 @@ func c14Run(c *c14Case) (err error) {
 				fm.datasize = end
 			}
 		}
-		fm.path = filepath.Join(dir, fmt.Sprintf("%03d.000.idx.s", fm.chunk))
+		// several files may describe the same data chunk (hint splits): they are numbered in order of appearance
+		fm.path = filepath.Join(dir, fmt.Sprintf("%03d.%03d.idx.s", fm.chunk, splitNo[fm.chunk]))
+		splitNo[fm.chunk]++
 		idx, err := buf.Dump(fm.path)
 		if err != nil {
 			return fmt.Errorf("Dump: %v", err)
@@ -388,13 +391,40 @@ func c14Gen(t *rapid.T) *c14Case {
 	})
 	chunk := 0
 	for f := 0; f < nfiles; f++ {
-		chunk += rapid.IntRange(0, 3).Draw(t, "gap")
+		if f > 0 && rapid.IntRange(0, 2).Draw(t, "split_of_same_chunk") == 0 {
+			chunk-- // another split of the previous file's data chunk
+		} else {
+			chunk += rapid.IntRange(0, 3).Draw(t, "gap")
+		}
 		lo := 1
 		n := rapid.IntRange(lo, maxItems).Draw(t, "minitems")
 		items := rapid.SliceOfN(itemGen, n, maxItems).Draw(t, "items")
 		c.Files = append(c.Files, items)
 		c.Chunks = append(c.Chunks, chunk)
 		chunk++
+	}
+	// one position holds one record: the same (hash, key) in two splits of one chunk never carries the same offset
+	// (inside a file the last set of a key wins: that is the item whose offset counts)
+	used := map[int]map[hk]map[uint32]bool{}
+	for fi := range c.Files {
+		ck := c.Chunks[fi]
+		if used[ck] == nil {
+			used[ck] = map[hk]map[uint32]bool{}
+		}
+		last := map[hk]int{}
+		for ii, it := range c.Files[fi] {
+			last[hk{it.Hash, it.Key}] = ii
+		}
+		for k, ii := range last {
+			it := &c.Files[fi][ii]
+			if used[ck][k] == nil {
+				used[ck][k] = map[uint32]bool{}
+			}
+			for used[ck][k][it.Offset] {
+				it.Offset += uint32(fi+1) << 8
+			}
+			used[ck][k][it.Offset] = true
+		}
 	}
 	// absent lookups of the four kinds
 	var all []c14Item
@@ -462,6 +492,14 @@ func TestVerif_C14_HintFiles(t *testing.T) {
 		}
 		if len(c.Files) >= 2 {
 			labels = append(labels, "multi_file")
+		}
+		seenChunk := map[int]bool{}
+		for _, ck := range c.Chunks {
+			if seenChunk[ck] {
+				labels = append(labels, "several_splits_of_one_chunk")
+				break
+			}
+			seenChunk[ck] = true
 		}
 		if total*30 > int(c.IndexInterval)*3 {
 			labels = append(labels, "index>=3_entries")
